@@ -3,8 +3,10 @@
 Store a confirmed seeded change under /verif/seeded/<ID>-<m>/ (patch.diff, demo, meta.json)."""
 import json, shutil, sys, os
 pid, m, detected, result, confirmation = sys.argv[1:6]
-src = f"/tmp/mut-{pid}-out/{m}"
-dst = f"/verif/seeded/{pid}-{m}"
+base = os.environ.get("MUT_BASE", "/tmp/mut")
+src = f"{base}-{pid}-out/{m}"
+name = os.environ.get("KEEP_AS", m)
+dst = f"/verif/seeded/{pid}-{name}"
 os.makedirs(dst, exist_ok=True)
 shutil.copy(f"{src}/patch.diff", f"{dst}/patch.diff")
 if os.path.isdir(f"{dst}/demo"):
@@ -13,7 +15,7 @@ shutil.copytree(f"{src}/demo", f"{dst}/demo")
 meta = json.load(open(f"{src}/meta.json"))
 meta["breaks_property"] = pid
 meta["confirmed_by_me"] = confirmation
-meta["check_run"] = f"git -C /repo apply seeded/{pid}-{m}/patch.diff && ./check {pid} quick ; git -C /repo checkout -- ."
+meta["check_run"] = f"git -C /repo apply seeded/{pid}-{name}/patch.diff && ./check {pid} quick ; git -C /repo checkout -- ."
 meta["detected_by_check"] = detected == "yes"
 meta["check_result"] = result
 json.dump(meta, open(f"{dst}/meta.json", "w"), indent=1)
